@@ -174,6 +174,9 @@ func descriptorFromResponse(resp *http.Response, knownDigest digest.Digest, requ
 		// The caller asked for this digest, so that is what the
 		// content must be checked against, whatever digest the
 		// response claims to carry.
+		if !ociref.IsValidDigest(string(knownDigest)) {
+			return ociregistry.Descriptor{}, fmt.Errorf("bad digest %q in request", knownDigest)
+		}
 		digest = knownDigest
 	}
 	if (require&requireDigest) != 0 && digest == "" {
